@@ -3,9 +3,12 @@ CONSTANTS
   Conns = {1}
   Kinds = {"out", "server"}
   Obfs = {FALSE}
+  SlowListener = TRUE
   GuardAcceptFinish = TRUE
   CloseOnCancel = TRUE
   AbortConnectOnClose = FALSE
+  ConnectingReportGuarded = TRUE
+  ClosingReportGuarded = TRUE
   MaxLives = 2
   MaxCalls = 2
   MaxMsgs = 1
